@@ -596,3 +596,56 @@ def float_of_decimal_text(s, allow_exponent=False):
     if not (k == 0 and hi < 2 ** 53):
         r.err = r.mag * U
     return r
+
+
+def _sreal_float(self):
+    """float(Decimal-like exact real): nearest double"""
+    a = _aff_of_term(z3.simplify(self.t))
+    if a is None:
+        raise OutOfSubset('float() of a non-affine exact real')
+    r = SFloat(a, None, 0)
+    r.err = r.mag * U
+    return r
+
+
+SReal._sym_float = _sreal_float
+
+
+def s_Decimal(x=0, *a):
+    """shadow of decimal.Decimal: exact value of a decimal text / int; concrete arguments give a real Decimal"""
+    from . import sstr as S
+    if isinstance(x, S.SStr):
+        c = ctx()
+        st = x.strip()
+        cells = list(S.cells_of(st))
+        ip, fp, dot = [], [], False
+        for cell in cells:
+            if S.cell_is(cell, '.'):
+                if dot:
+                    raise _decimal_invalid()
+                dot = True
+                continue
+            r = S.cell_in(cell, S.DIGITS)
+            if r is True or (r is not False and bool(r)):
+                (fp if dot else ip).append(S.narrow(cell, S.DIGITS))
+            else:
+                if isinstance(cell, S.Var) and not cell.cc.minus(S.DIGITS).inter(S.CC.of('eE+-_nNaAiIfFsSqQ')).empty():
+                    raise OutOfSubset('Decimal() of text that may use sign/exponent/special syntax')
+                raise _decimal_invalid()
+        if not ip and not fp:
+            raise _decimal_invalid()
+        k = len(fp)
+        n = c.fresh('dec')
+        c.assume(n == S.SStr(())._digits_value(ip) * 10 ** k + S.SStr(())._digits_value(fp))
+        declare_var(str(n), n, 0, 10 ** (len(ip) + k) - 1)
+        return SReal(z3.ToReal(n) / z3.RealVal(10 ** k))
+    if isinstance(x, SInt):
+        return SReal(z3.ToReal(x.t))
+    if isinstance(x, SFloat):
+        raise OutOfSubset('Decimal() of a float proxy')
+    return Decimal(x, *a)
+
+
+def _decimal_invalid():
+    import decimal
+    return decimal.InvalidOperation('invalid decimal literal')
